@@ -63,6 +63,14 @@ OTHER = ("other", None)
 
 def acceptable(label: str):
     """set of acceptable (category, class) outcomes for a label"""
+    if not label.isascii():
+        # "in any letter case" read over Unicode: a character whose upper or lower case is an ASCII letter (the long
+        # s, the Kelvin sign ...) may or may not count as that letter - the statement does not say, so both the plain
+        # reading and the case-mapped reading are accepted
+        mapped = "".join(ch if ch.isascii() else (ch.upper() if ch.upper().isascii() and len(ch.upper()) == 1 else
+                                                   ch.lower() if ch.lower().isascii() and len(ch.lower()) == 1 else ch) for ch in label)
+        plain = {OTHER}
+        return plain | (acceptable(mapped) if mapped.isascii() else set())
     definite = set()
     open_ = set()
     variants = [(label, False, False)]
@@ -233,23 +241,52 @@ def match_listing(tag, exp, n, got_lists, text):
     total = sum(len(v) for v in got_lists.values())
     if total != n:
         out.append(D(f"C19:{tag}:interaction-count", f"{total} interactions for {n} lines with two well-formed unit ids in {text[:300]!r}"))
-    # match each expected entry, in order, to the head of one of the acceptable category lists
-    cursors = {k: 0 for k in got_lists}
-    for u1, u2, acc in exp:
-        placed = False
+    # match the expected entries, in order, to the heads of acceptable category lists. A label with an open reading
+    # may be filed in either of two lists, so the assignment is searched (depth-first with memoisation), not greedy
+    cats = sorted(got_lists)
+    import sys
+    sys.setrecursionlimit(max(sys.getrecursionlimit(), 20000))
+    dead = set()
+
+    def place(k, cursors):
+        if k == len(exp):
+            return True
+        key = (k, cursors)
+        if key in dead:
+            return False
+        u1, u2, acc = exp[k]
         for cat, cl in sorted(acc, key=str):
+            ci = cats.index(cat)
+            c = cursors[ci]
             lst = got_lists[cat]
-            c = cursors[cat]
             if c < len(lst):
                 g1, g2, gcl, nolabel = lst[c]
                 if g1 == u1 and g2 == u2 and gcl == cl and nolabel:
+                    nxt = cursors[:ci] + (c + 1,) + cursors[ci + 1:]
+                    if place(k + 1, nxt):
+                        return True
+        dead.add(key)
+        return False
+
+    if len(exp) <= 3000 and not place(0, tuple(0 for _ in cats)):
+        # report the first line that cannot be placed under a greedy pass (for the message only)
+        cursors = {k: 0 for k in got_lists}
+        bad = None
+        for u1, u2, acc in exp:
+            placed = False
+            for cat, cl in sorted(acc, key=str):
+                lst = got_lists[cat]
+                c = cursors[cat]
+                if c < len(lst) and lst[c][0] == u1 and lst[c][1] == u2 and lst[c][2] == cl and lst[c][3]:
                     cursors[cat] += 1
                     placed = True
                     break
-        if not placed:
-            out.append(D(f"C19:{tag}:line-not-imported-faithfully",
-                         f"line {u1} -> {u2} with acceptable {sorted(acc, key=str)} is not the next entry of any acceptable list"))
-            break
+            if not placed:
+                bad = (u1, u2, acc)
+                break
+        u1, u2, acc = bad if bad else exp[-1]
+        out.append(D(f"C19:{tag}:line-not-imported-faithfully",
+                     f"line {u1} -> {u2} with acceptable {sorted(acc, key=str)} cannot be matched: the imported lists are not the lines in order, each in an acceptable list"))
     return out
 
 
@@ -408,7 +445,7 @@ def st_listing():
         if kind == "odd":
             # characters that str.splitlines() / str.split() treat as separators but a text file does not end a line
             # at (vertical tab, form feed, FS/GS/RS, NEL, LS, PS), non-ASCII letters, a byte-order mark: inside a field
-            ch = draw(st.sampled_from(["\x0b", "\x0c", "\x1c", "\x1d", "\x1e", "\x85", "\u2028", "\u2029", "\u00e9", "\ufeff", "\u00a0", " "]))
+            ch = draw(st.sampled_from(["\x0b", "\x0c", "\x1c", "\x1d", "\x1e", "\x85", "\u2028", "\u2029", "\u00e9", "\ufeff", "\u00a0", " ", "\u017f", "\u212a", "\u0131", "\u0661"]))
             where = draw(st.integers(0, 2))
             u1, u2 = draw(unit()), draw(unit())
             if where == 0:
@@ -674,6 +711,8 @@ def fuzz_shard(spec, res: ShardResult):
                 f.write("\n".join(lines[k:k + 6]))
         with open(os.path.join(corpus_dir, "icode"), "w") as f:
             f.write("1EHZ|1|A|U|17|||A\tncWWa\t1EHZ|1|A|G|-3|||B|6_555\t0\n# c\nX|1|A|G\ts35\tX|1|A|G|2\n")
+        with open(os.path.join(corpus_dir, "unicode"), "w") as f:
+            f.write("X|1|A|G|1\tcW\u017f\tX|1|A|C|2\t0\nX|1|A|G|1\tc\x0cWW\tX|1|B|C|2\t0\n")
     env = dict(os.environ, PYTHONPATH=os.pathsep.join([os.path.join(REPO, "src"), VERIF]), PYTHONHASHSEED="0",
                C19_FUZZ_TMP=work, LOGLEVEL="ERROR")
     cmd = ["/venv/bin/python", os.path.join(VERIF, "rnaverif", "c19_fuzz.py"), f"-runs={spec['runs']}", f"-seed={spec['seed']}",
